@@ -564,15 +564,19 @@ func multi() {
 		Attribute("name", String, func() { Pattern("^[a-z]+$") })
 		Attribute("count", Count)
 		Attribute("props", MapOf(String, String))
-		// collections whose example is drawn under a length validation (no user example)
-		Attribute("scores", MapOf(String, Int), func() { MinLength(2); MaxLength(3) })
-		Attribute("labels", ArrayOf(String), func() { MinLength(2); MaxLength(3) })
 		Attribute("inner", func() {
 			Attribute("x", Int, func() { Default(3) })
 			Attribute("y", ArrayOf(ID))
 		})
 		Attribute("next", "Thing")
 		Required("name")
+	})
+	// collections whose example is drawn under a length validation (no user example); kept
+	// out of the recursive type Thing: there goa's OpenAPI v3 schema builder does not
+	// terminate (DESIGN 8.3, untriaged observation)
+	var Sized = Type("Sized", func() {
+		Attribute("scores", MapOf(String, Int), func() { MinLength(2); MaxLength(3) })
+		Attribute("labels", ArrayOf(String), func() { MinLength(2); MaxLength(3) })
 	})
 	var ThingRef = Type("ThingRef", func() {
 		Reference(Thing)
@@ -586,6 +590,7 @@ func multi() {
 			Attribute("ref", ThingRef)
 			Attribute("things", ArrayOf(Thing))
 			Attribute("by_name", MapOf(ID, Thing))
+			Attribute("sized", Sized)
 			Required("thing")
 		})
 		View("default", func() {
@@ -597,6 +602,7 @@ func multi() {
 			Attribute("ref")
 			Attribute("things")
 			Attribute("by_name")
+			Attribute("sized")
 		})
 	})
 	var Custom = Type("CustomError", func() {
